@@ -56,6 +56,8 @@ func verifC16Cache() {
 	ttlA, ttlB := vUint32(), vUint32()
 	two := vBool()
 	empty := false
+	nodata := false
+	lastAskOK := false // the last lookup that went upstream succeeded
 	queries := 0
 	var fetchedAt [8]int64
 	lastFetch := 0
@@ -63,24 +65,29 @@ func verifC16Cache() {
 	dns.VerifHook_DoH = func(ctx context.Context, msg *dns.Message, URL string) (*dns.Message, error) {
 		queries++
 		if failing {
+			lastAskOK = false
 			return nil, errVTransport
 		}
 		m := &dns.Message{QR: 1}
-		if !empty {
+		mt := int64(ttlA)
+		switch {
+		case nodata:
+			// records, but none that answers the question: an alias to a name without addresses
+			m.Answer = append(m.Answer, dns.RR{Name: "n1", Type: 5, Class: 1, TTL: ttlA, Data: "gone.example"})
+		case !empty:
 			m.Answer = append(m.Answer, dns.RR{Name: "n1", Type: 1, Class: 1, TTL: ttlA, Data: net.IP{10, 0, 0, byte(version)}})
 			if two {
 				m.Answer = append(m.Answer, dns.RR{Name: "n1", Type: 1, Class: 1, TTL: ttlB, Data: net.IP{10, 0, 1, byte(version)}})
+				if int64(ttlB) < mt {
+					mt = int64(ttlB)
+				}
 			}
+		default:
+			mt = 300 // documented: a response without records is remembered for 300 s
 		}
 		fetchedAt[version] = clock
 		lastFetch = version
-		mt := int64(ttlA)
-		if two && int64(ttlB) < mt {
-			mt = int64(ttlB)
-		}
-		if empty {
-			mt = 300 // documented: empty answers are remembered for 300 s
-		}
+		lastAskOK = true
 		minTTL[version] = mt
 		return m, nil
 	}
@@ -90,8 +97,10 @@ func verifC16Cache() {
 		switch vInt(0, 3) {
 		case 0: // lookup
 			before := queries
+			mustHit := lastAskOK && clock-fetchedAt[lastFetch] < minTTL[lastFetch]
 			res, err := r.resolveOne(context.Background(), "n1", "A")
 			asked := queries > before
+			vAssert(!(mustHit && asked), "within the smallest TTL of the last response a repeated lookup is served from the cache")
 			if failing {
 				if asked {
 					vAssert(err != nil, "upstream failure is reported, not cached")
@@ -110,9 +119,7 @@ func verifC16Cache() {
 			}
 			if !asked {
 				// served from the cache: must be younger than the smallest TTL of its response
-				if len(res) > 0 || empty {
-					vAssert(clock-fetchedAt[v] < minTTL[v], "a cached answer is never served at or beyond its smallest TTL")
-				}
+				vAssert(clock-fetchedAt[v] < minTTL[v], "a cached answer is never served at or beyond its smallest TTL")
 				vReach("cache-hit")
 			} else {
 				vAssert(v == version, "a fresh lookup returns the current zone data")
@@ -126,6 +133,7 @@ func verifC16Cache() {
 				version++
 				ttlA, ttlB = vUint32(), vUint32()
 				empty = vBool()
+				nodata = !empty && vBool()
 			}
 		case 3:
 			failing = !failing
